@@ -1,5 +1,6 @@
 import PieModel.Props.C04
 import PieModel.Props.C04Once
+import PieModel.Props.C04Just
 #print axioms PieModel.C04_queueAdd_mem
 #print axioms PieModel.C04_queueAdd_nodup
 #print axioms PieModel.C04_queuePop_spec
@@ -16,3 +17,14 @@ import PieModel.Props.C04Once
 #print axioms PieModel.C04_popLeastFrom_in_cone
 #print axioms PieModel.C04_bu_once
 #print axioms PieModel.C04_bu_executed_consistent
+#print axioms PieModel.C04_exec_justified
+#print axioms PieModel.C04_exec_justified_update
+#print axioms PieModel.C04_exec_justified_scheduled
+#print axioms PieModel.C04_output_trace
+#print axioms PieModel.C04_output_trace_scheduled
+#print axioms PieModel.C04_schedule_justified
+#print axioms PieModel.C04_schedule_justified_update
+#print axioms PieModel.C04_schedule_justified_scheduled
+#print axioms PieModel.C04_consistent_not_executed
+#print axioms PieModel.C04_consistent_not_executed_scheduled
+#print axioms PieModel.C04_noOutputAt_iff
